@@ -14,7 +14,8 @@ harness/cmd/vpaths builds every enumerated graph in a real engine (VLink/VUnlink
 timestamps read back) and issues every query to FindPath, VExtractSubgraph, VSearch with a
 GraphQuery and VTraverse; answers are judged with the predicates of the specification.
 """
-import itertools, json, os, random, re, sys, threading, time
+import itertools, json, os, random, re, sys, time
+from concurrent.futures import ThreadPoolExecutor
 sys.path.insert(0, os.path.dirname(os.path.abspath(__file__)))
 import vlib
 from vlib import Check, make_cfg, run_tlc, Infra
@@ -23,9 +24,9 @@ PROP = "C11"
 
 BASE = {"N": 4, "NR": 2, "MaxEdges": 5, "MaxDead": 0, "Seeds": "<- c_Empty", "Grow": "TRUE",
         "DepthSeq": "<- c_Depths4", "WalkSeqs": "<- c_Walks4", "AlgRels": "<- c_AllRels", "AlgTimes": '"now"'}
-CHAINS = dict(BASE, N=7, MaxEdges=13, MaxDead=2, Seeds="<- c_Chains", Grow="FALSE",
+CHAINS = dict(BASE, N=7, MaxEdges=13, MaxDead=3, Seeds="<- c_Chains", Grow="FALSE",
               DepthSeq="<- c_Depths7", WalkSeqs="<- c_WalksShort")
-CAP = dict(BASE, MaxEdges=5, MaxDead=1, Seeds="<- c_CapGraphs", Grow="FALSE", WalkSeqs="<- c_WalksLong")
+CAP = dict(BASE, MaxEdges=5, MaxDead=3, Seeds="<- c_CapGraphs", Grow="FALSE", WalkSeqs="<- c_WalksLong")
 
 ALG_INVS = ["Inv_Family", "Inv_FoundIsShortestValid", "Inv_NoneOnlyBeyondDepth", "Inv_ScopeExact", "Inv_ScopeLabels",
             "Inv_Bounded", "Inv_ReachIsLevelSet"]
@@ -39,8 +40,7 @@ WALKS_LONG = ["1" * k for k in (9, 10, 11, 12)] + ["12" * 6]
 
 # number of isomorphism classes (4 nodes x 2 relations, group S4 x S2) by brute-force orbit
 # counting outside TLC; the orderly generation of Paths.tla must find exactly these many graphs
-ORBITS = {("live", 3): 147, ("live", 4): 993, ("live", 5): 5347, ("any", 2): 75, ("any", 3): 1065, ("any", 4): 15076,
-          ("dead1", 3): 550}
+ORBITS = {("live", 3): 147, ("live", 4): 993, ("live", 5): 5347, ("any", 2): 77, ("any", 3): 1125, ("any", 4): 16588}
 
 
 def seeds_literal(graphs):
@@ -71,7 +71,8 @@ def corpus_run(chk, name, consts, workers=None, timeout=1500, spec="SpecCorpus")
 
 def sample_graphs(rng, n, max_dead=2):
     """Seeded sample of labelled graphs of the bound (<= 5 edge versions over 4 nodes x 2 relations,
-    soft-deleted versions, re-links); TLC checks each is a member of the family (Inv_Family)."""
+    soft-deleted versions, re-links); TLC checks each is a member of the family (Inv_Family).
+    code = 3 * triple + status (0 live, 1 soft-deleted, 2 second soft-deleted version)."""
     out = set()
     N, NR = 4, 2
     while len(out) < n:
@@ -80,14 +81,23 @@ def sample_graphs(rng, n, max_dead=2):
         while len(codes) < k:
             s = rng.choice(touched) if touched and rng.random() < 0.6 else rng.randrange(N)
             t = rng.randrange(N)
-            r = rng.randrange(NR)
-            dead = 1 if rng.random() < 0.3 else 0
-            c = 2 * ((s * N + t) * NR + r) + dead
-            codes.add(c)
-            if dead and rng.random() < 0.3 and len(codes) < k:
-                codes.add(c - 1)      # re-link of the deleted edge
+            tri = (s * N + t) * NR + rng.randrange(NR)
+            u = rng.random() if max_dead > 0 else 1.0
+            if u < 0.12:
+                vs = [1, 0]            # deleted, linked again
+            elif u < 0.16:
+                vs = [1, 2]            # deleted twice
+            elif u < 0.20:
+                vs = [1, 2, 0]         # deleted twice, linked again
+            elif u < 0.35:
+                vs = [1]
+            else:
+                vs = [0]
+            if len(codes | {3 * tri + v for v in vs}) > k:
+                continue
+            codes |= {3 * tri + v for v in vs}
             touched += [s, t]
-        if sum(c % 2 for c in codes) > max_dead:
+        if sum(1 for c in codes if c % 3) > max_dead or any(c % 3 == 2 and c - 1 not in codes for c in codes):
             continue
         out.add(tuple(sorted(codes)))
     return sorted(out)
@@ -122,18 +132,25 @@ def describe(div, rec):
 
 
 def judge(chk, divs, recs, prof, consts):
+    """One report per (graph, divergence kind, interface); smallest graphs first (minimal reproductions)."""
     by_id = {r["id"]: r for r in recs}
-    reported = 0
+    divs = sorted(divs, key=lambda d: (len(by_id[d["id"]]["vers"]) if d["id"] in by_id else 99, d["id"], d["kind"]))
+    seen = set()
     for div in divs:
         rec = by_id.get(div["id"])
         kf = vlib.match_known(PROP, div)
         if kf:
             chk.known.append((kf["id"], kf["what"]))
             continue
-        reported += 1
-        if reported <= 20:
+        key = (div["id"], div["kind"], (div.get("op") or {}).get("op"))
+        if key in seen:
+            continue
+        seen.add(key)
+        if len(chk.violations) < 20:
             chk.violation(describe(div, rec), {"property": PROP, "checker": "vpaths", "profile": prof, "graph": rec,
                                                "divergence": div, "constants": {k: str(v) for k, v in consts.items()}})
+        else:
+            chk.violations.append((describe(div, rec), "(not written: more than 20 violations)"))
 
 
 def reproduce_design_counterexample(chk, r, consts, prof):
@@ -160,29 +177,33 @@ def run(tier):
     rng = random.Random(vlib.seed())
     quick = tier == "quick"
     totals = {}
-    all_divs = 0
     rel_order = vlib.seed() % 2
     prof4 = profile(WALKS4, rel_order)
     prof7 = profile(WALKS_SHORT, rel_order)
     profcap = profile(WALKS_LONG, rel_order)
 
-    # ---------------------------------------------------------------- 1. design level
+    # ---------------------------------------------------------------- 1. design level (runs beside 2./3.)
+    ALGD = "<- c_DepthsAlg"
     if quick:
-        alg_runs = [("MC_Paths_alg_live3", dict(BASE, MaxEdges=3), ("live", 3))]
+        sample_alg = [g for g in sample_graphs(random.Random(vlib.seed() + 1000), 400, max_dead=0) if len(g) >= 4][:60]
+        alg_runs = [("MC_Paths_alg_live3", dict(BASE, MaxEdges=3, DepthSeq=ALGD)),
+                    ("MC_Paths_alg_sample", dict(BASE, MaxEdges=5, DepthSeq=ALGD, Seeds=seeds_literal(sample_alg), Grow="FALSE"))]
     else:
-        alg_runs = [("MC_Paths_alg_live5", dict(BASE, MaxEdges=5), ("live", 5)),
-                    ("MC_Paths_alg_time3", dict(BASE, MaxEdges=3, MaxDead=1, AlgTimes='"all"'), ("dead1", 3))]
-    alg_runs.append(("MC_Paths_alg_chains", dict(CHAINS), None))
-    for name, consts, orbit in alg_runs:
+        alg_runs = [("MC_Paths_alg_live5", dict(BASE, MaxEdges=5, DepthSeq=ALGD)),
+                    ("MC_Paths_alg_time2", dict(BASE, MaxEdges=2, MaxDead=2, AlgTimes='"all"', DepthSeq=ALGD))]
+    alg_runs.append(("MC_Paths_alg_chains", dict(CHAINS)))
+
+    def do_alg(name, consts):
         # on 7 nodes the two auxiliary lemmas (BFS labels, level sets) are left to the 4-node runs
         invs = [i for i in ALG_INVS if i not in ("Inv_ScopeLabels", "Inv_ReachIsLevelSet")] if consts["N"] == 7 else None
-        r = alg_check(chk, name, consts, timeout=600 if quick else 2400, invs=invs)
-        if r.violated:
-            reproduce_design_counterexample(chk, r, consts, prof4 if consts["N"] == 4 else prof7)
+        return name, consts, alg_check(chk, name, consts, workers=max(2, vlib.NCPU // 2), timeout=900 if quick else 3000, invs=invs)
+
+    pool = ThreadPoolExecutor(max_workers=3)
+    alg_futures = [pool.submit(do_alg, name, consts) for name, consts in alg_runs]
 
     # ---------------------------------------------------------------- 2. corpus + 3. binding
     def bind(name, consts, prof, orbit=None, keep=None):
-        recs, r = corpus_run(chk, name, consts, timeout=600 if quick else 2400)
+        recs, r = corpus_run(chk, name, consts, workers=max(2, vlib.NCPU // 2), timeout=900 if quick else 3000)
         if orbit and r.distinct != ORBITS[orbit]:
             chk.infra.append("%s: TLC enumerated %d graphs, the bound has %d isomorphism classes" % (name, r.distinct, ORBITS[orbit]))
         if keep:
@@ -196,39 +217,50 @@ def run(tier):
                                    "walks_root_rho_set": ex["walks"][:3]}]
         divs = replay(chk, recs, prof, totals, name)
         judge(chk, divs, recs, prof, consts)
+        families.append({"config": name, "graphs_enumerated_by_tlc": r.distinct, "graphs_replayed": len(recs),
+                         "isomorphism_classes_of_the_bound": ORBITS.get(orbit) if orbit else None,
+                         "bound": "N=%s nodes, %s relations, <= %s edge versions, <= %s soft-deleted, %s" % (
+                             consts["N"], consts["NR"], consts["MaxEdges"], consts["MaxDead"],
+                             "all graphs up to isomorphism" if consts["Grow"] == "TRUE" else "given graphs")})
         return len(recs), len(divs)
 
-    n_graphs = 0
+    families = []
     if quick:
-        sample = sample_graphs(rng, 300)
-        consts = dict(BASE, MaxEdges=5, MaxDead=2, Seeds=seeds_literal(sample), Grow="FALSE")
-        n, d = bind("MC_Paths_corpus_sample", consts, prof4)
-        n_graphs += n; all_divs += d
+        sample = sample_graphs(rng, 300, max_dead=3)
+        consts = dict(BASE, MaxEdges=5, MaxDead=3, Seeds=seeds_literal(sample), Grow="FALSE")
+        bind("MC_Paths_corpus_sample", consts, prof4)
     else:
-        n, d = bind("MC_Paths_corpus_live5", dict(BASE, MaxEdges=5, MaxDead=0), prof4, orbit=("live", 5))
-        n_graphs += n; all_divs += d
-        n, d = bind("MC_Paths_corpus_any4", dict(BASE, MaxEdges=4, MaxDead=4), prof4, orbit=("any", 4),
-                    keep=lambda x: any(v[4] != 0 for v in x["vers"]))
-        n_graphs += n; all_divs += d
-    n, d = bind("MC_Paths_corpus_chains", dict(CHAINS), prof7)
-    n_graphs += n; all_divs += d
-    n, d = bind("MC_Paths_corpus_cap", dict(CAP), profcap)
-    n_graphs += n; all_divs += d
+        bind("MC_Paths_corpus_live5", dict(BASE, MaxEdges=5, MaxDead=0), prof4, orbit=("live", 5))
+        bind("MC_Paths_corpus_any4", dict(BASE, MaxEdges=4, MaxDead=4), prof4, orbit=("any", 4),
+             keep=lambda x: any(v[4] != 0 for v in x["vers"]))
+    bind("MC_Paths_corpus_chains", dict(CHAINS), prof7)
+    bind("MC_Paths_corpus_cap", dict(CAP), profcap)
+
+    # ---------------------------------------------------------------- design level: verdicts
+    for fut in alg_futures:
+        name, consts, r = fut.result()
+        if r.violated:
+            reproduce_design_counterexample(chk, r, consts, prof4 if consts["N"] == 4 else prof7)
+    pool.shutdown()
 
     chk.cov["traces_validated_against_impl"] = totals.get("graphs", 0)
     chk.cov["evaluations"] = totals.get("queries", 0)
     chk.cov["distinct_nontrivial"] = totals.get("nontrivial", 0)
     chk.cov["exhaustive"] = not quick
     chk.cov["binding"] = totals
+    chk.cov["families"] = families
     chk.cov["rule"] = (
-        "graphs = " + ("a seeded sample of 300 labelled graphs of the bound (<= 5 edge versions, <= 2 soft-deleted, re-links) + 8 hand-made 7-node graphs"
-                       if quick else
-                       "every graph up to isomorphism with <= 5 live edges (5347) and every graph up to isomorphism with <= 4 edge versions in any "
-                       "soft-delete/re-link pattern (15076, of which those with a deleted version are replayed) over 4 nodes x 2 relations, + 8 hand-made 7-node graphs")
-        + "; per graph every (source,target) x non-empty relation subset x depth in {0,1,2,3,4,7} x time in {now, before all, each event boundary "
-          "(both sides)} to FindPath, every root x relation subset x depth x time to VExtractSubgraph, every root x subset x direction "
-          "{out,in,both,default} x depth to VSearch+GraphQuery, every root x relation path of 1..4 hops to VTraverse; a query is non-trivial when "
-          "the required answer is not the trivial one (Dist > 0, scope larger than the root, non-empty walk set)")
+        "graphs: " + "; ".join("%s: %d enumerated by TLC, %d replayed (%s)" % (f["config"], f["graphs_enumerated_by_tlc"], f["graphs_replayed"], f["bound"])
+                               for f in families)
+        + (". quick: the 4-node graphs are a seeded sample of labelled graphs of the bound" if quick else
+           ". thorough: every graph up to isomorphism (node x relation permutations) with <= 5 live edges, and every graph up to isomorphism "
+           "with <= 4 edge versions in any soft-delete / re-link pattern (up to 3 versions per edge; those with a deleted version are replayed, "
+           "the others are part of the first family)")
+        + ". Per graph: every (source,target) x non-empty relation subset x depth of DepthSeq x time in {now, before all, each event boundary "
+          "(exactly at the event and at the last instant before the next)} to FindPath; every root x relation subset x depth x time to "
+          "VExtractSubgraph; every root x subset x direction {out,in,both,default} x depth to VSearch+GraphQuery (now); every root x relation "
+          "path of WalkSeqs to VTraverse (now). A query is non-trivial when the required answer is not the trivial one (Dist > 0, scope larger "
+          "than the root, non-empty walk set).")
     chk.assumptions += [
         "graphs have 4 nodes and 2 relations (7 nodes for the hand-made chain family that exercises the depth clamp 5, default depths and the traversal cap)",
         "the history of a graph is the canonical one (all links in code order, then the soft deletes, then the re-links); edge weights/properties do not vary",
